@@ -65,6 +65,8 @@ class Cell:
         # preconditions (regular expressions, alphabets) do not admit these.
         nasty = ["'", '"', ',', '&', '<', ']', '=', '/', '@', '[', '(', '%', '+', '#', ';', ':', '>', '*', '?', '|']
         content = ['\U0001F600', '\u00e9', '\u4e2d', '\u00df']
+        # (multi-character contents that look like markup or character references after parsing are used by the
+        # explicit examples of the payload, script and accessor cells)
         import re as _re
         want_len = {}
         for pr in self.pre:
@@ -89,8 +91,12 @@ class Cell:
         return None
 
 
-LITERAL_IDS = ['None', '0', 'storyID', 'False', 'x' * 120, ' a b ', 'nan', '-1', 'item', '\u00e9\u4e2d\U0001F600', '1e3', 'roCreate',
-               '..', '*', "it's", 'p']
+LITERAL_IDS = ['SRV1;FOLDER;100', 'SRV2;FOLDER;100', 'None', '100', 'A,100', 'B,100', '0', 'storyID', 'x' * 120, ' a b ', 'False',
+               'a.b:100', 'c.b:100', 'nan', '-1', 'item', '\u00e9\u4e2d\U0001F600', '1e3', 'roCreate', '..', '*', "it's", 'p', '100;',
+               ';100', 'a/100', 'b/100']
+
+
+CONTENT_TEXTS = ['NATIONS&REGIONS &copy; AT&amp;T &#38; &lt;VT&gt; \U0001F600', ' R&D&para 4 \u00e9 ', '&amp;lt;b&amp;gt;', '\u00a0x\u2028y']
 
 
 def id_variant(cell, ex):
@@ -98,11 +104,18 @@ def id_variant(cell, ex):
     equal, different values stay different): IDs are opaque strings, so the verdict must be the same."""
     if ex is None:
         return None
-    idlike = [n for n, t in cell.sym if t == 'str' and ('len(%s) == 1' % n) in cell.pre and
-              PRINTABLE.format(v=n) in cell.pre and not (len(n) == 2 and n[0] in 'cq' and n[1].isdigit())]
-    if not idlike:
+    one_char = [n for n, t in cell.sym if t == 'str' and ('len(%s) == 1' % n) in cell.pre and
+                PRINTABLE.format(v=n) in cell.pre]
+    idlike = [n for n in one_char if not (len(n) == 2 and n[0] in 'cq' and n[1].isdigit())]
+    contents = [n for n in one_char if len(n) == 2 and n[0] == 'c' and n[1].isdigit()]
+    if not idlike and not contents:
         return None
     mapping, out = {}, dict(ex)
+    # free texts (slugs, paragraph texts, attribute values) become texts that still look like markup, entities
+    # or character references after parsing, with supplementary-plane characters and significant whitespace
+    for i, n in enumerate(contents):
+        if isinstance(ex.get(n), str):
+            out[n] = CONTENT_TEXTS[i % len(CONTENT_TEXTS)]
     for n in idlike:
         v = ex.get(n)
         if not isinstance(v, str):
